@@ -317,7 +317,7 @@ func libScenario(r *vh.Run, kind kit.Kind, regime string, K, M int, startID int6
 			c.Close()
 			return
 		}
-		if startID > 0 {
+		if startID != 0 {
 			mcp.VerifSetRequestID(c.Raw(), startID)
 		}
 		clients = append(clients, c)
@@ -327,7 +327,7 @@ func libScenario(r *vh.Run, kind kit.Kind, regime string, K, M int, startID int6
 			c.Close()
 		}
 	}()
-	gate := fmt.Sprintf("lgate-%s-%s-%d", kind, regime, round)
+	gate := fmt.Sprintf("lgate-%s-%s-%d-%d", kind, regime, round, startID)
 	kit.MaxInFlight.Store(0)
 	type res struct {
 		nonce, digest string
@@ -404,7 +404,7 @@ func libScenario(r *vh.Run, kind kit.Kind, regime string, K, M int, startID int6
 	wg.Wait()
 	r.Max("handlers_in_flight", kit.MaxInFlight.Load())
 	idc := "small"
-	if startID > 0 {
+	if startID != 0 {
 		idc = fmt.Sprintf("from-%d", startID)
 	}
 	for _, x := range results {
@@ -563,6 +563,10 @@ func main() {
 		mixScenarios(r)
 		r.Finish("debug run: operation-mix histories only", nil)
 	}
+	if os.Getenv("C01_ONLY") == "ids" { // debugging aid: only the id value space
+		idScenarios(r)
+		r.Finish("debug run: id value space only", nil)
+	}
 	for round := 0; round < rounds; round++ {
 		for _, kind := range kit.AllKinds {
 			for _, regime := range []string{"immediate", "delay", "barrier"} {
@@ -590,12 +594,20 @@ func main() {
 	}
 	kit.Events.Reset()
 	slowReader(r, 150, 100<<10)
+	if os.Getenv("C01_SKIP") != "ids" { // debugging aid
+		idScenarios(r)
+	}
 	mixScenarios(r)
 	pressureScenarios(r)
 
 	r.Finish("7 server configurations x {raw peer, library client} x completion regimes {immediate, random delay, barrier release}; "+
 		"raw peers use every id class (small/large integers up to 2^53, strings incl. digit strings and non-ASCII, same value as string and integer); "+
 		"library clients cross the 10^6 and 2^31 id boundaries and run up to exactly 2^53; legacy-SSE slow-reader scenario; "+
+		"id value space: on every configuration one raw session keeps a whole batch of echo calls (up to 78) pending together at a gate whose ids sit on the boundaries of what JSON-RPC allows — the empty string, a space, strings that "+
+		"look like numbers or JSON literals, strings that are the text of another pending numeric id (7 and \"7\", \"\" and 0), 1 KiB and 64 KiB strings, quotes, backslashes, escaped control characters, non-BMP characters (raw and as "+
+		"surrogate escapes), percent signs / printf verbs, the integers 0, -1, min/max int32 and uint32 and their neighbours, +-2^53 and +-(2^53-1); in-range integers written in exponent or fraction-zero form (1e3, 7.0, -0, 0e0) next to their "+
+		"string twins (answer under a number equal in value, or an error; never silence; which one is counted); max/min int64, 2^53+3 and 1.5 are in flight as well but only counted; the library clients' id counter is set so that their "+
+		"ids are 0, negative, cross min int32 / max uint32 and start at -2^53; "+
 		"back-pressure episodes on all 7 configurations: the peer stops reading (legacy event stream with a small fixed receive buffer, stdio stdout pipe, Streamable POST response bodies) while more answers than the "+
 		"legacy server's 100-slot queue holds are in flight on one session, the in-flight calls taking every answer path (result, large result, isError, handler Go error, unknown tool, invalid / missing params, "+
 		"unknown method, middleware Go error, NaN / chan results, nil content, prompt and resource successes and failures, ping, lists); after the peer resumes every call must have exactly one answer with its own id "+
@@ -610,5 +622,6 @@ func main() {
 		[]string{"ids above 2^53 are outside the statement", "interleavings are sampled, not enumerated", "a missing answer is judged after a 20 s wait on an otherwise idle loopback connection",
 			"operation-mix histories: a call is called unanswered only when its 40 s watchdog fired (slow calls: counted from the release of the gate, and only when the handler is recorded to have returned) AND a call issued afterwards on the same client was answered; a transport failure is judged the same way; without the later answer the case is inconclusive",
 			"operation-mix histories: the context given to Initialize is kept alive for the whole history (cancelling it is a client life-cycle matter)",
+			"id value space: an id is echoed when the response id is equal as a JSON value (strings by code points whatever the escaping, numbers by exact value whatever the spelling) and of the same JSON type; integers written with an exponent or a zero fraction may also be refused with an error; on the asynchronous transports an answer is called missing only after the stream delivered nothing for 15 s AND two pings posted afterwards were answered on it, an error frame without id is attributed to a pending number-form request by count",
 			"back-pressure episodes: an answer is called missing only after the stream delivered nothing for 15 s AND two pings posted afterwards were answered on the same stream (Streamable: the POST's own response ended in order without it)"})
 }
